@@ -246,15 +246,17 @@ class _Inliner(ast.NodeTransformer):
 
     def visit_Name(self, node):
         if isinstance(node.ctx, ast.Load) and node.id in self.env and self.depth > 0:
-            import copy
-            sub = copy.deepcopy(self.env[node.id])
+            sub = _clone(self.env[node.id])
             return _Inliner(self.env, self.depth - 1).visit(sub)
         return node
 
 
-def expand(expr, env):
-    """expr with single-assignment locals replaced by their definitions (deep copy)."""
-    import copy
-    e = copy.deepcopy(expr)
-    e = _Inliner(env).visit(e)
+def _clone(expr):
+    return ast.parse(ast.unparse(expr), mode="eval").body
+
+
+def expand(expr, env, depth=6):
+    """expr with single-assignment locals replaced by their definitions (fresh copy)."""
+    e = _clone(expr)
+    e = _Inliner(env, depth).visit(e)
     return ast.fix_missing_locations(e)
